@@ -22,8 +22,9 @@ def apply(rep, rid, what, res, floor):
 def run(prog, rep, tier):
     rep.clause = ("R1: every path of every op::next/stringer::next override (86 incl. template instantiations, same-class helpers inlined, "
                   "configuration conditions correlated) that returns 'no stack' passes through an upstream pull unless no state-dependent "
-                  "condition lies on it (no exhaustion latch, so sub-expression chains can be re-fed); R4: each origin created in build_exec/"
-                  "build_pred/overload_instance feeds exactly one chain built on the same layout and is paired with that chain; "
+                  "condition lies on it (no exhaustion latch, so sub-expression chains can be re-fed); R4: build_exec/build_pred interpreted from source on a symbolic tree of every "
+                  "sub-expression kind: each origin (or ALT tine) feeds exactly one chain, built on the origin's own layout object, and the constructor "
+                  "or registration that receives the chain receives that very origin (overload_instance: same rule on its shape); "
                   "R5: state accumulators (containers grown, counters used for numbering) are reset between two inputs; "
                   "R7: on every path from the success edge of an upstream pull to a `no stack` return there is another pull (an op never reports "
                   "exhaustion while its upstream still has input); R6: in op_tine::next the shared upstream is pulled only on paths that established this tine is branch 0 (or the merge cursor "
@@ -34,7 +35,7 @@ def run(prog, rep, tier):
     rep.not_decided = ("that the yielded multiset equals the documented meaning of each construct and the left-to-right order of results "
                        "(run-time values; needs execution).")
     apply(rep, "R1", "no exhaustion latch in next()", r_stream.r1(prog), 60)
-    apply(rep, "R4", "origin/chain/layout pairing", r_stream.r4(prog), 13)
+    apply(rep, "R4", "origin/chain/layout pairing", r_stream.r4(prog), 17)
     apply(rep, "R5", "per-input accumulators reset on new input", r_stream.r5(prog), 3)
     apply(rep, "R7", "`no stack` is returned only when the upstream pull returned none", r_stream.r7(prog), 60)
     apply(rep, "R6", "a new input is pulled for an ALT-list only by its first branch (left-to-right per input)", r_stream.r6(prog), 1)
